@@ -145,7 +145,8 @@ func genHalt(c *Ctx) error {
 			switch k := r.Intn(10); {
 			case k < 5: // a halted transaction (or several) from the replica
 				var out string
-				if r.Chance(1, 3) {
+				queued := r.Chance(1, 3)
+				if queued {
 					// the request arrives while the primary's application is inside a write
 					// transaction: it queues behind the application's locks, the application commits,
 					// and the lock is granted at the position *after* that commit
@@ -156,9 +157,11 @@ func genHalt(c *Ctx) error {
 					if !issued {
 						do(fmt.Sprintf("halt-bg %d %d", rep, id))
 					}
+					// (no observation in between: the grant — with its journal rollback and checkpoint
+					// on the primary — happens as soon as the application's last lock is gone)
+					out = do(fmt.Sprintf("halt-join %d", rep))
 					st := do(fmt.Sprintf("n %d state", primary))
 					record(P, posOf(st))
-					out = do(fmt.Sprintf("halt-join %d", rep))
 					R.img, R.tok = append([][]byte{}, P.img...), append([]string{}, P.tok...)
 					R.wal, R.changeCtr = P.wal, P.changeCtr+uint32(1000*(i+1))
 					sig.WriteString(",queued")
@@ -166,7 +169,12 @@ func genHalt(c *Ctx) error {
 				} else {
 					out = do(fmt.Sprintf("halt %d %d", rep, id))
 				}
+				if queued {
+					// the transaction the primary just committed reaches a third node asynchronously
+					only = map[int]bool{primary: true, rep: true}
+				}
 				pp := states(what + " (halted)")
+				only = nil
 				if !strings.HasPrefix(out, "ok ") {
 					c.Fail(fmt.Sprintf("history %d %s: halt lock not granted: %s", h, what, out))
 					failed = true
